@@ -93,7 +93,7 @@ def run_unit(unit, repo_src=None, out_dir=None, extra_args=(), rlimit_mult=None,
     except Exception as e:
         res.status = 'undecided'; res.reason = 'setup failed: %s' % e; return res
     modes = {}
-    out_dir = out_dir or os.path.join(BUILD, 'gen')
+    out_dir = out_dir or os.path.join(BUILD, 'gen', 'p%d' % os.getpid())     # one directory per process: concurrent checks never share a generated file
     os.makedirs(out_dir, exist_ok=True)
     path = os.path.join(out_dir, unit.name + '.rs')
     rlib = glob.glob(os.path.join(DEPS, 'librust_decimal-*.rlib'))[0]
@@ -275,7 +275,7 @@ def run_probe(unit, repo_src=None, out_dir=None, threads=8, timeout=900):
         g = generate(unit, repo_src, None, probe=True)
     except Exception as e:
         return dict(status='undecided', reason='%s: %s' % (type(e).__name__, e), probed=[], reached=[], not_reached=[])
-    out_dir = out_dir or os.path.join(BUILD, 'gen')
+    out_dir = out_dir or os.path.join(BUILD, 'gen', 'p%d' % os.getpid())
     os.makedirs(out_dir, exist_ok=True)
     path = os.path.join(out_dir, unit.name + '_probe.rs')
     open(path, 'w').write(g.text())
